@@ -142,7 +142,8 @@ Proof.
         (destruct x' as [|[|x']]; [| |cbn in Hx'; lia]);
         cbn [var_bits ex_ly nth snd In] in Hp, Hp'; try reflexivity; exfalso; lia.
   - split; [repeat constructor; intros []|].
-    intros x v [E|[]]. injection E as <- <-. cbn. repeat split; try lia. intros [E|[]]. lia.
+    intros x v [E|[]]. injection E as <- <-.
+    split; [cbn; lia|]. split; [cbn; lia|]. intros [E|[]]. lia.
   - split; [repeat constructor; cbn; intuition lia|].
     intro y. cbn [map fst In list_bits flat_map var_bits ex_ly nth snd app]. split.
     + intros [<-|[<-|[]]]; (split; [cbn; tauto|vm_compute; reflexivity]).
